@@ -350,19 +350,24 @@ func entityNames(r *core.Run, info *types.Info) {
 	// status prefix agreement
 	var prefixes []string
 	for _, fn := range []string{"entityNode.acceptStatus", "entityNode.findStatus"} {
-		fd, _ := r.P.FuncDecl(walkRel, fn)
+		fd, fpk := r.P.FuncDecl(walkRel, fn)
 		if fd == nil {
 			r.Fatal("anchor: sourcewalk.%s not found", fn)
 			continue
 		}
-		ast.Inspect(fd.Body, func(n ast.Node) bool {
-			if s, ok := n.(*ast.BasicLit); ok {
+		// the function and the same-package helpers it calls (a shared `statusPrefix()`): one prefix per function
+		seen := ""
+		core.InspectTree(fpk, fd.Body, func(n ast.Node) bool {
+			if s, ok := n.(*ast.BasicLit); ok && seen == "" {
 				if v, ok := core.ConstString(info, s); ok && strings.Contains(v, "_STATUS_") {
-					prefixes = append(prefixes, strings.ReplaceAll(strings.ReplaceAll(v, "%s", ""), " ", ""))
+					seen = strings.ReplaceAll(strings.ReplaceAll(v, "%s", ""), " ", "")
 				}
 			}
 			return true
 		})
+		if seen != "" {
+			prefixes = append(prefixes, seen)
+		}
 	}
 	o := r.Add("R-CONST/entitynames", "sourcewalk.entityNode | status prefix agreement", 0, "status prefix constants")
 	if len(prefixes) == 2 && strings.Trim(prefixes[0], "_") == strings.Trim(prefixes[1], "_") {
